@@ -313,7 +313,7 @@ static json gen_seq() {
       else
         val = gen_value(pickv(kinds()), nullptr);
       last[key] = val;
-      op = json{{"op", "write"}, {"path", path}, {"name", name}, {"val", val}, {"direct", rbool(30)}};
+      op = json{{"op", "write"}, {"path", path}, {"name", name}, {"val", val}, {"direct", rbool(30)}, {"while_writable_open", rbool(30)}};
     } else if (c < 82) {
       std::string mode = (i == 0) ? pick<std::string>({"CREATE", "MODIFY"}) : pick<std::string>({"READ", "READ", "READ", "MODIFY", "MODIFY", "MODIFY", "CREATE"});
       if (mode == "CREATE") last.clear();
@@ -764,6 +764,29 @@ struct Machine {
     if (mode == "READ") {
       r.cls("op:write-on-READ");
       marker("Checkpoint/readonly", when + " on a READ handle");
+      // (0) interleaved handles: a writable handle on the same file is open in this process when the read-only handle
+      // is created (HDF5 then shares one file object); the read-only handle must still refuse to hand out a writer
+      if (op.value("while_writable_open", false)) {
+        r.cls("op:write-on-READ-while-MODIFY-handle-open");
+        h.reset();
+        bool gave_writer = false;
+        {
+          xtp::CheckpointFile wr(file, xtp::CheckpointAccessLevel::MODIFY);
+          xtp::CheckpointFile ro(file, xtp::CheckpointAccessLevel::READ);
+          try {
+            xtp::CheckpointWriter w = ro.getWriter(abs_path(path));
+            gave_writer = true;
+          } catch (const std::runtime_error &) {
+          }
+        }
+        if (gave_writer) {
+          r.fail("Checkpoint/readonly-getWriter", when + ": getWriter() on a READ handle did not throw while a MODIFY handle on the same file was open");
+          return;
+        }
+        verify(when + " (READ handle next to an open MODIFY handle, file must be unchanged)");
+        if (!r.ok) return;
+        h = std::make_unique<xtp::CheckpointFile>(file, xtp::CheckpointAccessLevel::READ);
+      }
       // (1) the documented way
       try {
         xtp::CheckpointWriter w = h->getWriter(abs_path(path));
